@@ -223,13 +223,16 @@ def dedupStr : List Str → List Str
   | a :: l => a :: (dedupStr l).filter (· ≠ a)
 
 /-- `Close`: the value handed to `json.Encoder.Encode`; `ord` = iteration order of the default graph's
-    subject map. `none` = the export does not terminate (unreachable for `ExportResources`, kept total). -/
-def encode (cfg : Cfg β) (d : List (DQuad β)) (ord : List (Term β)) : Option Json :=
+    subject map in the first pass of the repaired `ExportResources` (patch fix-c17-export-cycles), `ord2` in
+    the second pass (which picks one node of every cycle of once-referenced blank nodes).
+    `none` = deeper than the fuel (does not happen: the `inlined` set bounds the depth by the number of
+    blank nodes; kept total). -/
+def encode (cfg : Cfg β) (d : List (DQuad β)) (ord ord2 : List (Term β)) : Option Json :=
   let E := mkEnc cfg
   let D := dbuild d
   let hasDefault := D.graphNames.contains none
   let B := D.builder none
-  match (if hasDefault then B.exportResources Opts.default ord (d.length + 1) else some []) with
+  match (if hasDefault then B.exportResourcesV Opts.default ord ord2 (d.length + 1) else some []) with
   | none => none
   | some rs =>
     let items := buildRoots E cfg.label B rs []
